@@ -216,24 +216,45 @@ def run_rows(prop, rows, tier, seed, mons, vacuity=(), extra_assumptions=(), fun
     fatal = []
     ctx = mp.get_context("fork")
     with ctx.Pool(NPROC) as pool:
-        phase2 = []
-        for res in pool.imap_unordered(_worker, tasks, chunksize=1):
-            if "fatal" in res:
-                fatal.append(res["fatal"])
-                continue
-            results.append(res)
-            for pre in res["split_prefixes"]:
-                t = dict(res["task"])
-                t["prefix"] = pre
-                t["split_depth"] = None
-                t["sample_paths"] = 1 if len(phase2) % 6 == 0 else 0
-                phase2.append(t)
-        # longest prefixes tend to be the deepest subtrees: start them first
-        for res in pool.imap_unordered(_worker, phase2, chunksize=1):
-            if "fatal" in res:
-                fatal.append(res["fatal"])
-                continue
-            results.append(res)
+        # level 0: every row up to 5 forks deep; level 1: the sub-trees of rows that fanned out, 4 more forks deep;
+        # level 2: whatever is left, unsplit.  Keeps 16 workers busy on rows with a few very deep sub-trees.
+        level = tasks
+        budget = float(os.environ.get("VERIF_BUDGET_S", "0") or 0) or (900 if tier == "quick" else 5400)
+        out_of_time = False
+        for depth in (5, 4, None):
+            nxt = []
+            per_row = {}
+            it = pool.imap_unordered(_worker, level, chunksize=1)
+            while True:
+                try:
+                    res = it.next(timeout=max(1.0, budget - (time.time() - t0)))
+                except StopIteration:
+                    break
+                except mp.TimeoutError:
+                    out_of_time = True
+                    break
+                if "fatal" in res:
+                    fatal.append(res["fatal"])
+                    continue
+                results.append(res)
+                key = json.dumps(res["task"]["cfg"], sort_keys=True, default=str) + str(res["task"]["K"]) + res["task"]["ties"]
+                for pre in res["split_prefixes"]:
+                    t = dict(res["task"])
+                    t["prefix"] = pre
+                    t["sample_paths"] = 1 if len(nxt) % 6 == 0 else 0
+                    per_row.setdefault(key, []).append(t)
+                    nxt.append(t)
+            if out_of_time:
+                fatal.append("time budget of %.0f s exceeded: exploration stopped, the rows are not exhausted (violations found so far are still reported)" % budget)
+                pool.terminate()
+                break
+            if not nxt:
+                break
+            for key, ts in per_row.items():
+                for t in ts:
+                    # split again only where the previous level fanned out widely
+                    t["split_depth"] = 4 if (depth == 5 and len(ts) >= 16) else None
+            level = nxt
     return finish(prop, tier, seed, rows, results, fatal, vacuity, extra_assumptions, functions, origin, t0, level_note)
 
 
